@@ -34,6 +34,12 @@ type Engine struct {
 	// Effects, if set, tells whether an in-repo function may write memory
 	// reachable from its parameters or globals (E5); used for opaque calls.
 	Effects func(fn *ssa.Function) (writes bool, known bool)
+	// NoLoops: do not generalise loops; a loop whose iteration the state does
+	// not decide ends the path as Cut (the engine's original fragment).
+	NoLoops bool
+	// InlineLoops: inline in-repo callees even when they contain generalised
+	// loops (default: such callees stay opaque calls).
+	InlineLoops bool
 	// ErrClasses, if set, gives the sentinel classes (E4) of result idx of an
 	// in-repo call that is not inlined.
 	ErrClasses func(site *ssa.Call, idx int) []string
@@ -49,6 +55,10 @@ type workItem struct {
 	st      *State
 	visited map[*ssa.BasicBlock]int
 	count   map[*ssa.BasicBlock]int
+	// widened: loop headers whose state was already generalised on this path
+	widened map[*ssa.BasicBlock]bool
+	// widen: the φ-nodes of b take fresh (loop-invariant-only) values
+	widen bool
 }
 
 // Run interprets fn from its entry with the given initial state and
@@ -81,11 +91,41 @@ func (e *Engine) Run(fn *ssa.Function, init *State, args []AV) []Path {
 			e.fail("state budget exceeded in %s", fn)
 			return out
 		}
-		// loop control
+		// loop control: a block is met again on this path. If every branch
+		// since the last visit was decided by the state the loop is simply
+		// followed (constant trip count). Otherwise the state at the header is
+		// generalised once (widening: φ-nodes and everything the loop may
+		// write are forgotten) and the body is explored again from that state,
+		// which stands for an arbitrary iteration; meeting the generalised
+		// header again ends the path.
 		if last, seen := it.visited[it.b]; seen {
 			if last != it.st.splits || it.count[it.b] > 4096 {
-				out = append(out, Path{St: it.st, Cut: it.b})
-				continue
+				if e.NoLoops || it.pred == nil || !it.b.Dominates(it.pred) {
+					out = append(out, Path{St: it.st, Cut: it.b})
+					continue
+				}
+				if it.widened[it.b] {
+					out = append(out, Path{St: it.st, Loop: it.b})
+					continue
+				}
+				li := loopInfoOf(it.b)
+				nw := make(map[*ssa.BasicBlock]bool, len(it.widened)+1)
+				for k, v := range it.widened {
+					if !li.blocks[k] {
+						nw[k] = v
+					}
+				}
+				nw[it.b] = true
+				it.widened = nw
+				nv := make(map[*ssa.BasicBlock]int, len(it.visited))
+				for k, v := range it.visited {
+					if !li.blocks[k] {
+						nv[k] = v
+					}
+				}
+				it.visited = nv
+				e.widenMemory(it.st, li)
+				it.widen = true
 			}
 		}
 		it.visited[it.b] = it.st.splits
@@ -111,6 +151,12 @@ func (e *Engine) Run(fn *ssa.Function, init *State, args []AV) []Path {
 			case *ssa.If, *ssa.Return, *ssa.Jump, *ssa.Panic:
 				term = in
 			case *ssa.Phi:
+				if it.widen {
+					for _, st := range cur {
+						st.env[x] = e.widenPhi(st, x)
+					}
+					break
+				}
 				for i, p := range it.b.Preds {
 					if p == it.pred {
 						for _, st := range cur {
@@ -191,7 +237,7 @@ func (e *Engine) succ(it workItem, st *State, i int, copyMaps bool) workItem {
 			c[k] = x
 		}
 	}
-	return workItem{b: it.b.Succs[i], pred: it.b, st: st, visited: v, count: c}
+	return workItem{b: it.b.Succs[i], pred: it.b, st: st, visited: v, count: c, widened: it.widened}
 }
 
 func (e *Engine) fail(f string, a ...any) {
@@ -1286,12 +1332,15 @@ func (e *Engine) call(st *State, x *ssa.Call) ([]*State, []Path) {
 			if p.Cut != nil || p.Stop != nil {
 				ok = false
 			}
+			if p.Loop != nil && !e.InlineLoops {
+				ok = false
+			}
 		}
 		if ok {
 			var next []*State
 			var done []Path
 			for _, p := range paths {
-				if p.Panic != nil {
+				if p.Panic != nil || p.Loop != nil {
 					done = append(done, p)
 					continue
 				}
@@ -1562,6 +1611,8 @@ func describePaths(w *World, paths []Path) []string {
 			}
 		case p.Stop != nil:
 			kind = "stop"
+		case p.Loop != nil:
+			kind = fmt.Sprintf("loop@b%d", p.Loop.Index)
 		}
 		var evs []string
 		for _, ev := range p.St.events {
@@ -1595,4 +1646,150 @@ func debugDump(w *World, name string) {
 	for _, l := range describePaths(w, paths) {
 		fmt.Println(l)
 	}
+}
+
+// ---------- loops ----------
+
+type loopInfo struct {
+	header   *ssa.BasicBlock
+	blocks   map[*ssa.BasicBlock]bool
+	locals   map[*ssa.Alloc]bool // local allocations the loop may write
+	nonLocal bool                // the loop may write memory other than those
+}
+
+var loopCache = map[*ssa.BasicBlock]*loopInfo{}
+
+func loopInfoOf(h *ssa.BasicBlock) *loopInfo {
+	if li, ok := loopCache[h]; ok {
+		return li
+	}
+	li := &loopInfo{header: h, blocks: map[*ssa.BasicBlock]bool{h: true}, locals: map[*ssa.Alloc]bool{}}
+	var stack []*ssa.BasicBlock
+	for _, p := range h.Preds {
+		if h.Dominates(p) && !li.blocks[p] {
+			li.blocks[p] = true
+			stack = append(stack, p)
+		}
+	}
+	for len(stack) > 0 {
+		b := stack[len(stack)-1]
+		stack = stack[:len(stack)-1]
+		for _, p := range b.Preds {
+			if !li.blocks[p] && h.Dominates(p) {
+				li.blocks[p] = true
+				stack = append(stack, p)
+			}
+		}
+	}
+	markAddr := func(a ssa.Value) {
+		if al, ok := addrRootAlloc(a); ok {
+			li.locals[al] = true
+		} else {
+			li.nonLocal = true
+		}
+	}
+	for b := range li.blocks {
+		for _, in := range b.Instrs {
+			switch x := in.(type) {
+			case *ssa.Store:
+				markAddr(x.Addr)
+			case *ssa.MapUpdate:
+				li.nonLocal = true
+			case ssa.CallInstruction:
+				c := x.Common()
+				if bi, ok := c.Value.(*ssa.Builtin); ok {
+					switch bi.Name() {
+					case "copy", "append", "delete", "clear":
+						li.nonLocal = true
+					}
+					continue
+				}
+				name := calleeName(c)
+				if m, ok := models[name]; ok && m.Pure {
+					continue
+				}
+				li.nonLocal = true
+				for _, a := range c.Args {
+					if al, ok := addrRootAlloc(stripIface(a)); ok {
+						li.locals[al] = true
+					}
+				}
+			}
+		}
+	}
+	loopCache[h] = li
+	return li
+}
+
+func allocLoc(x *ssa.Alloc) string {
+	loc := "L:" + x.Parent().Name() + "." + x.Name()
+	if x.Comment != "" {
+		loc += "(" + x.Comment + ")"
+	}
+	return loc
+}
+
+// widenMemory forgets what the loop may have written.
+func (e *Engine) widenMemory(st *State, li *loopInfo) {
+	st.epoch++
+	for al := range li.locals {
+		e.havocPointee(st, AV{Kind: KAddr, Loc: allocLoc(al)}, "loop")
+	}
+	if li.nonLocal {
+		e.havocAll(st)
+	}
+}
+
+// widenPhi gives a φ-node of a generalised loop header a fresh value; for a
+// monotone induction variable (constant start, constant positive/negative
+// step) the start bounds it from below/above.
+func (e *Engine) widenPhi(st *State, phi *ssa.Phi) AV {
+	name := fmt.Sprintf("φ%s.%s@%d", phi.Parent().Name(), phi.Name(), st.epoch)
+	a := e.typed(st, name, phi.Type())
+	if a.Kind != KLin {
+		return a
+	}
+	h := phi.Block()
+	lo, hi := int64(minI), int64(maxI)
+	haveInit, up, down := false, true, true
+	for i, ed := range phi.Edges {
+		if h.Dominates(h.Preds[i]) {
+			bo, ok := ed.(*ssa.BinOp)
+			if !ok || bo.X != ssa.Value(phi) {
+				up, down = false, false
+				continue
+			}
+			k, isK := constInt(bo.Y)
+			switch {
+			case isK && bo.Op == token.ADD && k >= 0, isK && bo.Op == token.SUB && k <= 0:
+				down = false
+			case isK && bo.Op == token.ADD && k < 0, isK && bo.Op == token.SUB && k > 0:
+				up = false
+			default:
+				up, down = false, false
+			}
+		} else {
+			v, isLin := e.linRange(st, e.eval(st, ed))
+			if !isLin || v.empty() {
+				up, down = false, false
+				continue
+			}
+			if !haveInit || v.min() < lo {
+				lo = v.min()
+			}
+			if !haveInit || v.max() > hi {
+				hi = v.max()
+			}
+			haveInit = true
+		}
+	}
+	if haveInit {
+		switch {
+		case up:
+			st.terms[name] = inter(st.terms[name], iset{{lo, maxI}})
+		case down:
+			st.terms[name] = inter(st.terms[name], iset{{minI, hi}})
+		}
+	}
+	return a
 }
